@@ -105,6 +105,10 @@ def scenarios(tier):
                {"top.do": [S(deps=["m "], noise=1)], "m .do": [S(deps=["c"], noise=1, out="file")], "c.do": [S(deps=["s"], noise=1)]},
                ["top", "m ", "c"], ["top"])
     L.append((SC.scn("noisy-target-name-ends-in-space-j1", ww, ["redo --no-color top"], visible=VIS, log_mode=True, post_cmds=post), 0))
+    L.append((SC.scn("noisy-record-with-empty-text-j1", noisy_world(128), ["redo --no-color top"], visible=VIS, log_mode=True,
+                     post_cmds=post), 0))
+    L.append((SC.scn("noisy-multibyte-character-cut-between-two-polls-j1", noisy_world(256), ["redo --no-color top"], visible=VIS,
+                     log_mode=True, post_cmds=post, poll_at="h:", extra_line=(9, "caf\u00e9 ok", ("top", "a", "b", "c"))), 0))
     # every script writes a line that parses as a record naming a file redo knows nothing about: in-band signalling, so the
     # line itself is shown as a header -- but the viewer must survive it and go on showing everything else
     L.append((SC.scn("noisy-record-like-line-j1", noisy_world(2), ["redo --no-color top"], visible=VIS, log_mode=True,
@@ -165,7 +169,7 @@ def judge_stream(name, pairs, targets, scn, out, times=None):
         if not m:
             continue
         t, seq, payload = m.group(1), int(m.group(2)), m.group(3)
-        if seq in (6, 7, 8):
+        if seq in (6, 7, 8, 9):
             continue
         if t not in seen:
             out.append(({"kind": "log-line-for-unknown-target", "scenario": scn["name"], "stream": name}, {"line": line[:200]}))
@@ -195,7 +199,7 @@ def judge_stream(name, pairs, targets, scn, out, times=None):
                 out.append(({"kind": "special-line-" + ("lost" if n == 0 else "duplicated"), "scenario": scn["name"],
                              "stream": name, "target": t, "seq": seq}, {"count": n}))
     for t, seqs in seen.items():
-        seqs = [x for x in seqs if x not in (6, 7, 8)]
+        seqs = [x for x in seqs if x not in (6, 7, 8, 9)]
         n = times.get(t, 1)
         if n == 0:
             if seqs:
